@@ -18,7 +18,7 @@ CLAIMS = {
  "C09": dict(sec="4 C09", text="Seeded search over (service config, method, call options, status-code fault script, latency script, jitter script) on a virtual clock, for sync gRPC, asyncio gRPC and REST clients, over unary calls, every page fetch of pagers, initial calls of long-running methods and first attempts of server streams; every recorded history is walked by an executable retry/deadline reference model read straight from the service-config JSON. Exploration: a clean batch is evidence, not proof; the property quantifies over fault sequences, which is exactly what the simulator samples.",
              note="Trusted: google-api-core's retry/timeout algorithm as the semantics of a configured policy; the simulated channels (SimChannel/SimAioChannel) faithfully deliver status codes and deadlines; service configs are drawn from a conventional grammar (DESIGN.md section 3 exclusions).",
              tech="deterministic simulation: virtual clock + scripted status-code/latency/jitter faults, reference retry model as oracle"),
- "C07": dict(sec="4 C07", text="Seeded search over server page histories (1..5 pages of 0..3 items, up to 8 in the thorough tier, empty middle pages), faults between pages, concurrent asyncio pagers, cancellation and request-object reuse, on sync gRPC, asyncio gRPC and REST pagers; every history is checked against a sequential pager model (exactly-once, in-order, token threading, unchanged call options). Exploration level.",
+ "C07": dict(sec="4 C07", text="Seeded search over server page histories (1..5 pages of 0..3 items, up to 8 in the thorough tier, empty middle pages), faults between pages, concurrent asyncio pagers, cancellation, request-object reuse, a second walk of the same pager and replies of a newer server (unknown JSON fields), on sync gRPC, asyncio gRPC and REST pagers; every history is checked against a sequential pager model (exactly-once, in-order, token threading, unchanged call options). Exploration level.",
              note="Trusted: simulated channels; AIP-4233 classification is computed by the oracle from the input descriptors; conventional grammar (excluded corners in DESIGN.md section 3).",
              tech="deterministic simulation: scripted page histories + faults/cancellation, sequential pager model as oracle"),
  "C08": dict(sec="4 C08", text="Seeded search over operation histories (not-done^k then done with response|error) with poll faults and latencies on a virtual clock, for sync, asyncio and REST clients; typed-future model checks polling target, result/metadata types and values, error mapping and bounded liveness after done. Exploration level.",
